@@ -7,7 +7,7 @@ import re
 import subprocess
 import sys
 
-from common import (BUILD, REPO, SEED, VERIF, MachineryError, run_tlc,
+from common import (to_tlc, BUILD, REPO, SEED, VERIF, MachineryError, run_tlc,
                     use_repo)
 
 
@@ -91,7 +91,7 @@ def validate(V, tier):
         raise MachineryError('no emit_json traces recorded')
     path = os.path.join(BUILD, 'json-traces.json')
     with open(path, 'w') as f:
-        json.dump(traces, f)
+        f.write(to_tlc(json.dumps(traces)))
     r = run_tlc('MC_Trace_Json', 'Trace_Json.cfg', workers=1,
                 env={'TRACE_FILE': path}, timeout=3600, want_cases=False,
                 name='trace-json')
